@@ -11,5 +11,6 @@ CFG = dict(
     assumptions=["limit-close perpetual orders are disabled in the code (v1) and not generated"],
     explanation="Theorems: while an order is pending its escrow holds at least its amount (all histories, repaired handler); wallet + escrow conservation through create/update/"
                 "cancel and skipped/failed executions; owner-only update/cancel; an execution changes nothing unless the trigger holds; cancel returns the whole escrow; witness "
-                "of the pre-repair partial-effect defect. Predicates (escrow holds, owner only, trigger, cancel returns all) evaluated on every observed block.",
+                "of the pre-repair partial-effect defect. Predicates (escrow holds, owner only, trigger, cancel returns all) evaluated on every observed block."
+                " Order ids: every pending order's id is below the counter and no id is pending twice over all histories including export/import restarts (order_ids_never_reused); evaluated on every observed block.",
 )
